@@ -5,6 +5,7 @@ Obligations (per decoder body, callees that receive input bytes analysed in the 
   bounds  MIR Assert(BoundsCheck)                                                  need index < len
   unwrap  Option/Result::unwrap|expect                                             safe only for try_into of a constant-width slice into [T; N]
   panic   a call into core::panicking (assert!/assert_eq!/panic!/unreachable!)     never discharged when reachable
+  alloc   Vec::with_capacity / reserve / vec![x; n] sized by a decoded value        need n <= k * len(input) for a small k
 Discharge: linear facts from dominating length tests (analysis/linear.py).  A decoder that cannot express failure
 (returns Self) and has undischarged obligations is reported once (C10.signature).
 Arithmetic-overflow asserts are out of scope (64-bit usize assumption).
@@ -392,6 +393,23 @@ class DecoderAnalysis:
                     if isinstance(f, VFact) and f.k == k and (f.variant == want if want else f.variant in good):
                         ok = True
             check(bb, "unwrap", [] if ok else [None], "%s on %s" % (last, show(e)[:90]), facts)
+            return
+        if name in ("std::vec::Vec::with_capacity", "std::vec::Vec::reserve", "std::vec::Vec::reserve_exact", "std::vec::from_elem",
+                    "std::vec::Vec::resize", "std::collections::VecDeque::with_capacity", "std::string::String::with_capacity"):
+            # allocation sized by a decoded count: must be bounded by a small multiple of the input length
+            ai = {"std::vec::Vec::with_capacity": 0, "std::collections::VecDeque::with_capacity": 0, "std::string::String::with_capacity": 0}.get(name, 1)
+            if ai < len(t["args"]):
+                n = lz.lin(ch.origin(t["args"][ai]))
+                if n is None or not n.is_const():
+                    goals_ok = False
+                    lins = [f for f in facts.values() if isinstance(f, Lin)] + list(lz.intrinsic.values())
+                    if n is not None:
+                        for p in range(1, body.argc + 1):
+                            if body.ty(p)["s"] in BYTE_BUF:
+                                L = Lin(0, {("len", ("L", p, body.name_of(p))): 1})
+                                if any(prove(L.scale(k) - n, lins) for k in (1, 4, 16, 64)):
+                                    goals_ok = True
+                    check(bb, "alloc", [] if goals_ok else [None], "%s(%s)" % (last, show(ch.origin(t["args"][ai]))[:70]), facts)
             return
         if "panicking::" in name or name.startswith("std::rt::begin_panic") or name.endswith("::panic_fmt"):
             check(bb, "panic", [None], name.rsplit("::", 1)[-1], facts)
